@@ -376,3 +376,43 @@ def run_ambient(P, rep, rule="R-AMBIENT"):
         else:
             rep.viol(rule, "DateTime::now called by " + c, "-", "the clock is read outside the date parser's explicit now/today inputs")
     rep.count(rule + ".scan")
+
+
+# ---------------------------------------------------------------------------------------
+# R-GLOBALSET: the library never writes process-wide settings of its dependencies or of std
+
+GLOBAL_SETTERS = ("pest::set_call_limit", "pest::set_error_detail", "std::env::set_var", "std::env::remove_var", "std::env::set_current_dir",
+                  "std::panic::set_hook", "std::panic::take_hook", "log::set_max_level", "log::set_logger", "log::set_boxed_logger",
+                  "std::process::exit", "std::process::abort", "std::alloc::set_alloc_error_hook")
+
+
+def run_global_setters(P, rep, rule="R-GLOBALSET"):
+    """No library function (parse or render side) calls a setter of process-global state that lives outside the workspace
+    (pest's call limit, environment, panic hook ..): two threads using independent parsers/templates would interfere through it.
+    Matching is by callee path prefix plus the generic shape `set_*` of a dependency function taking no receiver."""
+    n = 0
+    bad = 0
+    for fn in sorted(P.fns.values(), key=lambda f: f.id):
+        if fn.crate not in ("liquid", "liquid_core", "liquid_lib") or "::test" in fn.id:
+            continue
+        k = 0
+        for bi, t in P.calls(fn):
+            f = t.get("f")
+            if not f or f["krate"].startswith("liquid"):
+                continue
+            n += 1
+            nm = f["name"]
+            last = f["id"].rsplit("::", 1)[1]
+            hit = any(nm == g or nm.startswith(g + "::") or nm.endswith("::" + g) for g in GLOBAL_SETTERS)
+            # generic: a free `set_*` function of a non-std dependency (no receiver argument): a global knob
+            if not hit and last.startswith("set_") and not f.get("trait") and "self_ty" not in f and f["krate"] not in ("core", "alloc", "std") \
+                    and nm.count("::") <= 1:
+                hit = True
+            if hit:
+                bad += 1
+                rep.viol(rule, "%s calls %s#%d" % (fn.key, nm, k), P.where(fn, t["line"]),
+                         "`%s` writes process-wide state: independent parsers/templates on other threads observe it (races, cross-talk)" % nm)
+                k += 1
+    if not bad:
+        rep.ok(rule, "extern callees", "-", "%d calls into dependencies/std from library code; none is a process-global setter" % n)
+    rep.count(rule + ".scan")
